@@ -155,8 +155,12 @@ func runQueueMisuse(c *core.Case, name string, res *core.Result) {
 	if !empty {
 		// prefix history
 		n := 3 + r.Intn(10)
+		maxLen := 3000
+		if r.Chance(1, 2) {
+			maxLen = 150 // several events per page: ACK boundaries inside the head page
+		}
 		for i := 0; i < n; i++ {
-			if !q.WriteChunk(1+r.Intn(3000), 0) {
+			if !q.WriteChunk(1+r.Intn(maxLen), 0) {
 				return
 			}
 		}
@@ -176,7 +180,7 @@ func runQueueMisuse(c *core.Case, name string, res *core.Result) {
 		if !q.DoneRead() {
 			return
 		}
-		if k > 0 && r.Chance(1, 2) && !q.ACK(1+r.Intn(k)) {
+		if k > 0 && r.Chance(3, 4) && !q.ACK(1+r.Intn(k)) {
 			return
 		}
 	}
